@@ -161,18 +161,22 @@ func runC16(c *core.Ctx) {
 		// child's dictionary is false) the hoist must be unreachable, whatever kind of
 		// child it is: an intermediate node without the key has kids that rely on the
 		// key being absent or that carry their own values, and would all inherit the hoisted one.
-		var okVar types.Object
+		// (every comma-ok lookup in a child's dictionary counts: with a helper
+		// folded in there may be more than one)
+		okVars := map[types.Object]bool{}
 		ast.Inspect(fn.Decl.Body, func(n ast.Node) bool {
 			if as, isAs := n.(*ast.AssignStmt); isAs && len(as.Lhs) == 2 && len(as.Rhs) == 1 {
 				if ix, isIx := ast.Unparen(as.Rhs[0]).(*ast.IndexExpr); isIx {
 					if sel, isSel := ast.Unparen(ix.X).(*ast.SelectorExpr); isSel && sel.Sel.Name == "dict" {
-						okVar = core.ObjOf(info, as.Lhs[1])
+						if obj := core.ObjOf(info, as.Lhs[1]); obj != nil {
+							okVars[obj] = true
+						}
 					}
 				}
 			}
 			return true
 		})
-		if okVar == nil {
+		if len(okVars) == 0 {
 			core.Undecided("lookup of the key in the child dictionaries not found")
 		}
 		tested := 0
@@ -183,7 +187,7 @@ func runC16(c *core.Ctx) {
 			for _, l := range []core.EdgeLabel{core.EdgeTrue, core.EdgeFalse} {
 				lacks := false
 				for _, a := range bv.Implied(l) {
-					if id, isID := ast.Unparen(a.Expr).(*ast.Ident); isID && info.ObjectOf(id) == okVar && a.Neg {
+					if id, isID := ast.Unparen(a.Expr).(*ast.Ident); isID && okVars[info.ObjectOf(id)] && a.Neg {
 						lacks = true
 					}
 				}
